@@ -349,6 +349,12 @@ def itemFrameUpd : Item → Option (Nat × (RFrame → RFrame))
   | .cm (.bo n) text => some (n, fun f => { f with comment := some text })
   | .cm (.sg n name) text => some (n, modSigByName name fun s => { s with comment := some text })
   | .val v => some (v.id, modSigByName v.name fun s => { s with values := v.entries.foldl (fun acc (k, t) => assocSet acc k t) s.values })
+  | .valtype n name => some (n, modSigByName name fun s => { s with isFloat := true })
+  | .grp g => some (g.frameId, fun f => { f with groups := f.groups ++ [groupOf f g] })
+  | .mul ml => some (ml.id, fun f =>
+      match sigIdx f ml.sig with
+      | some j => { (f.modSig j fun s => { s with muxer := some ml.muxer, ranges := s.ranges ++ ml.ranges }) with complexMux := true }
+      | none => f)
   | _ => none
 
 /-- applied to every frame: the frames with the identifier the number denotes change -/
@@ -529,6 +535,18 @@ theorem applyItem_frames (m : RMatrix) (hu : KeysUnique m) (it : Item) (n : Nat)
       simp only [itemFrameUpd, Option.some.injEq, Prod.mk.injEq] at hit; obtain ⟨rfl, rfl⟩ := hit
       simp only [applyItem, Item.frameNo, applyCore, hfi]
       split <;> rfl
+    | valtype id name =>
+      simp only [itemFrameUpd, Option.some.injEq, Prod.mk.injEq] at hit; obtain ⟨rfl, rfl⟩ := hit
+      simp only [applyItem, Item.frameNo, applyCore, hfi]
+      split <;> rfl
+    | grp g =>
+      simp only [itemFrameUpd, Option.some.injEq, Prod.mk.injEq] at hit; obtain ⟨rfl, rfl⟩ := hit
+      simp only [applyItem, Item.frameNo, applyCore, hfi]
+      split <;> rfl
+    | mul ml =>
+      simp only [itemFrameUpd, Option.some.injEq, Prod.mk.injEq] at hit; obtain ⟨rfl, rfl⟩ := hit
+      simp only [applyItem, Item.frameNo, applyCore, hfi]
+      split <;> rfl
     | cm hd text =>
       cases hd with
       | bo id =>
@@ -559,6 +577,29 @@ theorem applyItem_frames (m : RMatrix) (hu : KeysUnique m) (it : Item) (n : Nat)
       | some si =>
         simp only [RMatrix.modFrame]
         exact modifyAt_congr_at _ _ _ _ (fun b hb => by rw [ha] at hb; injection hb with hb; subst hb; simp [modSigByName, hs])
+    | valtype id name =>
+      simp only [itemFrameUpd, Option.some.injEq, Prod.mk.injEq] at hit; obtain ⟨rfl, rfl⟩ := hit
+      simp only [applyItem, Item.frameNo, hkn, Bool.false_eq_true, if_false, applyCore, hfi, ha, Option.bind_some]
+      cases hs : sigIdx a name with
+      | none =>
+        simp only [RMatrix.err]
+        exact (modifyAt_id_at _ _ _ (fun b hb => by rw [ha] at hb; injection hb with hb; subst hb; simp [modSigByName, hs])).symm
+      | some si =>
+        simp only [RMatrix.modFrame]
+        exact modifyAt_congr_at _ _ _ _ (fun b hb => by rw [ha] at hb; injection hb with hb; subst hb; simp [modSigByName, hs])
+    | grp g =>
+      simp only [itemFrameUpd, Option.some.injEq, Prod.mk.injEq] at hit; obtain ⟨rfl, rfl⟩ := hit
+      simp only [applyItem, Item.frameNo, hkn, Bool.false_eq_true, if_false, applyCore, hfi, RMatrix.modFrame]
+    | mul ml =>
+      simp only [itemFrameUpd, Option.some.injEq, Prod.mk.injEq] at hit; obtain ⟨rfl, rfl⟩ := hit
+      simp only [applyItem, Item.frameNo, hkn, Bool.false_eq_true, if_false, applyCore, hfi, ha, Option.bind_some]
+      cases hs : sigIdx a ml.sig with
+      | none =>
+        simp only
+        exact (modifyAt_id_at _ _ _ (fun b hb => by rw [ha] at hb; injection hb with hb; subst hb; simp [hs])).symm
+      | some si =>
+        simp only [RMatrix.modFrame]
+        exact modifyAt_congr_at _ _ _ _ (fun b hb => by rw [ha] at hb; injection hb with hb; subst hb; simp [hs])
     | cm hd text =>
       cases hd with
       | bo id =>
@@ -599,6 +640,11 @@ theorem itemUpd_key (it : Item) (f : RFrame) : (itemUpd it f).key = f.key := by
     · cases it with
       | tx t => simp only [itemFrameUpd, Option.some.injEq, Prod.mk.injEq] at h; obtain ⟨_, rfl⟩ := h; rfl
       | val v => simp only [itemFrameUpd, Option.some.injEq, Prod.mk.injEq] at h; obtain ⟨_, rfl⟩ := h; exact modSigByName_key _ _ f
+      | valtype id name => simp only [itemFrameUpd, Option.some.injEq, Prod.mk.injEq] at h; obtain ⟨_, rfl⟩ := h; exact modSigByName_key _ _ f
+      | grp g => simp only [itemFrameUpd, Option.some.injEq, Prod.mk.injEq] at h; obtain ⟨_, rfl⟩ := h; rfl
+      | mul ml =>
+        simp only [itemFrameUpd, Option.some.injEq, Prod.mk.injEq] at h; obtain ⟨_, rfl⟩ := h
+        simp only; split <;> rfl
       | cm hd text =>
         cases hd with
         | bo id => simp only [itemFrameUpd, Option.some.injEq, Prod.mk.injEq] at h; obtain ⟨_, rfl⟩ := h; rfl
